@@ -378,7 +378,14 @@ class Gen:
                 need = (prev[1] in ("id", "kw", "num") and k in ("id", "kw", "num")) or prev[0].startswith("\\")
                 # operators that would glue into another token
                 glue = (prev[1] == "sym" and k == "sym") or (prev[1] == "num" and k == "sym") or (prev[1] == "sym" and k == "num")
-                ws = r.choice([" ", " ", "\n", "  ", "\t", "\n  ", " /* c */ ", " // c\n"]) if (need or glue or r.random() < 0.5) else ""
+                if glue and prev[1] == "sym" and k == "sym" and not fuses(prev[0], t) and r.random() < 0.35:
+                    glue = False           # two operators that cannot be read as another one may stand side by side: a=-b, a<=~b
+                    tight = r.random() < 0.6
+                else:
+                    tight = False
+                ws = r.choice([" ", " ", "\n", "  ", "\t", "\n  ", " /* c */ ", " // c\n"]) if (need or glue or (r.random() < 0.5 and not tight)) else ""
+                if tight and r.random() < 0.3:
+                    ws = r.choice(["/* c */", "//c\n"])     # a comment directly behind an operator
                 if prev[0].startswith("\\") and not ws[:1].isspace():
                     ws = " " + ws
                 out.append(ws); pos += len(ws.encode())
@@ -386,6 +393,24 @@ class Gen:
             out.append(t); pos += len(t.encode())
         out.append("\n")
         return "".join(out), spans
+
+
+# every operator / punctuation token of more than one character (IEEE 1800-2017 Annex A.8.6 and the delimiters)
+MULTI_OPS = {"+=", "-=", "*=", "/=", "%=", "&=", "|=", "^=", "<<=", ">>=", "<<<=", ">>>=", "==", "!=", "===", "!==", "==?", "!=?",
+             "&&", "||", "**", "<=", ">=", "^~", "~^", ">>", "<<", ">>>", "<<<", "->", "<->", "->>", "++", "--", "~&", "~|", "::", ":=", ":/",
+             "+:", "-:", "##", "#-#", "#=#", "|->", "|=>", "@@", "(*", "*)", "'{", "/*", "*/", "//", "&&&", "[*", "[=", "[->", "*>", "=>",
+             ".*", "@*", "+/-", "+%-", "1step", "$"}
+
+
+def fuses(a, b):
+    """could the characters of two adjacent symbols be read as (part of) another token?"""
+    s = a + b
+    for i in range(len(a)):
+        for j in range(len(a) + 1, len(s) + 1):
+            if s[i:j] in MULTI_OPS:
+                return True
+    # a prefix of a longer operator that continues into b (e.g. "<" "<=" ...)
+    return any(op.startswith(s[i:]) and len(op) > len(s) - i and i < len(a) for i in range(len(a)) for op in MULTI_OPS if len(s) - i > len(a) - i)
 
 
 # ----------------------------------------------------------------------------- qualifier orders
@@ -431,4 +456,28 @@ def qualifier_orders(r=None, n=None):
     out = [("sv", s) for s in out]
     if n is not None and r is not None and n < len(out):
         out = r.sample(out, n)
+    return out
+
+
+def attribute_zoo():
+    """An attribute instance (one or two) in front of every kind of item of every container -- many are not SystemVerilog
+    (a parameter declaration in a class takes no attribute, nor does an empty item): whatever the parser accepts must
+    still list every byte of the attribute in its tree.  -> [("sv", source)]"""
+    items = ["localparam int P = 1;", "parameter int Q = 2;", ";", "int x;", "rand bit [3:0] r;", "function void f(); endfunction",
+             "task t(); endtask", "constraint k { x > 0; }", "class d; endclass", "covergroup cg; endgroup", "typedef int t_t;",
+             "import p::*;", "extern function void g();", "static int s;", "wire w;", "assign w = 1;", "initial x = 1;", "always_comb x = 1;",
+             "genvar g;", "m2 u();", "defparam u.P = 1;", "specify endspecify", "timeunit 1ns;", "modport mp(input w);", "clocking cb @(posedge w); endclocking",
+             "default clocking cb2 @(posedge w); endclocking", "property pr; 1; endproperty", "sequence sq; 1; endsequence", "assert property (pr);",
+             "export p::*;", "let l1 = 1;", "nettype int nt;", "bind m2 m3 b();", "if (1) begin end", "for (genvar i = 0; i < 2; i++) begin end",
+             "begin end", "x = 1;", "x <= 1;", "if (x) x = 0;", "case (x) 0: x = 1; endcase", "return;", "fork join", "#1;", "@(x);", "wait (x);", "x++;",
+             "forever begin end", "disable f;", "-> e;", "int y = 2;"]
+    conts = ["class c; %s endclass\n", "module m; %s endmodule\n", "interface i; %s endinterface\n", "package p; %s endpackage\n",
+             "program pg; %s endprogram\n", "module m; generate %s endgenerate endmodule\n", "module m; initial begin %s end endmodule\n",
+             "module m; function void f(); %s endfunction endmodule\n", "%s\n", "checker ch; %s endchecker\n",
+             "module m; if (1) begin %s end endmodule\n", "class c; function void f(); %s endfunction endclass\n"]
+    out = []
+    for c in conts:
+        for it in items:
+            out.append(("sv", c % ("(* keep *) " + it)))
+            out.append(("sv", c % ("int q0; (* a = 1 *) (* b *) " + it)))
     return out
